@@ -15,6 +15,11 @@ def _qlayer():
     return qlayer.generate(os.path.join(REPO, 'src/quantity/__init__.py'))
 
 
+def _alloc():
+    from . import alloc
+    return alloc.generate(os.path.join(REPO, 'src/quantity/__init__.py'))
+
+
 def _oplayer():
     from . import oplayer
     return oplayer.generate(os.path.join(REPO, 'src/quantity/__init__.py'))
@@ -73,6 +78,7 @@ def _doctables():
 GENERATORS = [
     ('RoundingImpl', _rounding),
     ('QuantityImpl', _qlayer),
+    ('AllocImpl', _alloc),
     ('OpsImpl', _oplayer),
     ('MoneyConvImpl', _mconv),
     ('ConvStackImpl', _cstack),
